@@ -25,7 +25,8 @@ def render_ty(t):
     if t[0] == "prim":
         return t[1]
     if t[0] == "ref":
-        return ("::" if t[1] else "") + "::".join(t[2])
+        own = "".join("[x::a%d] " % a for a in (t[3] if len(t) > 3 else ()))
+        return own + ("::" if t[1] else "") + "::".join(t[2])
     return "Sequence<%s>" % render_ty(t[1])
 
 
@@ -65,6 +66,7 @@ def build(files):
 
     def under_of(t, attrs, mod):
         if t[0] == "ref":
+            attrs = list(attrs) + (list(t[3]) if len(t) > 3 else [])
             return "n:%d:%s:%s:%s" % (1 if t[1] else 0, I.segs(t[2]), ".".join(str(a) for a in attrs) or "-", I.segs(mod))
         nid[0] += 1
         desc[nid[0]] = ("prim", t[1]) if t[0] == "prim" else ("seq",)
@@ -78,7 +80,10 @@ def build(files):
         if t[0] == "prim":
             queries.append(None)
             return
-        queries.append({"q": "%s;%s;%d;%s" % (x, I.segs(mod), 1 if t[1] else 0, I.segs(t[2])), "own": list(own_attrs) if not inner else [], "inner": inner, "group": group})
+        own = list(own_attrs) if not inner else []
+        if len(t) > 3:
+            own = own + list(t[3])
+        queries.append({"q": "%s;%s;%d;%s" % (x, I.segs(mod), 1 if t[1] else 0, I.segs(t[2])), "own": own, "inner": inner, "group": group})
 
     for f in files:
         mod = f["module"]
@@ -108,7 +113,7 @@ def build(files):
             elif k == "custom":
                 add(key, "custom", key, what=("named", "custom", "::".join(key)))
             elif k == "alias":
-                q("T", mod, d[2], own_attrs=d[3])
+                q("T", mod, d[2], own_attrs=d[3])  # the alias's own type: its attributes come first, then the chain's
                 add(key, "alias", key, under_of(d[2], d[3], mod), what=("alias",))
         add(mod, "module", mod, what=("module",))
     line = "res " + " ".join(entries) + " # " + " ".join(x["q"] for x in queries if x)
@@ -170,8 +175,9 @@ def gen_program(rng, small):
                 target_mod = rng.choice(MODULES + [mod])
                 nm = rng.choice(NAMES)
                 full = target_mod + [nm]
+                own = tuple(rng.randrange(1, 9) for _ in range(rng.choice([0, 0, 0, 1, 2])))
                 if spelling < 0.35:
-                    return ("ref", False, [nm])
+                    return ("ref", False, [nm], own)
                 if spelling < 0.55:
                     return ("ref", False, full[-2:])
                 if spelling < 0.7:
@@ -257,7 +263,8 @@ def chain_family(rng, n):
             files.append({"module": mods[i], "defs": [("alias", "L%d" % i, tgt, [rng.randrange(1, 9) for _ in range(rng.choice([0, 1, 2]))])]})
         if end in ("struct", "custom", "iface", "enum"):
             files.append({"module": mods[L], "defs": [{"struct": ("struct", "T", []), "custom": ("custom", "T"), "iface": ("iface", "T", [], []), "enum": ("enum", "T", None)}[end]]})
-        files.append({"module": mods[0], "defs": [("struct", "U", [("u", ("ref", False, ["L0"])), ("v", ("seq", ("ref", True, mods[0] + ["L0"])))]),
+        files.append({"module": mods[0], "defs": [("struct", "U", [("u", ("ref", False, ["L0"])), ("v", ("seq", ("ref", True, mods[0] + ["L0"]))), ("w", ("ref", False, ["L0"], (9, 4))),
+                                                                      ("x", ("seq", ("ref", False, ["L0"], (3,))))]),
                                                    ("iface", "W", [("ref", False, ["L0"])], []), ("enum", "E", ("ref", False, ["L0"]))]})
         rng.shuffle(files)
         progs.append(files)
@@ -328,17 +335,10 @@ def run(ck):
                 rid, ra = r[1:].split(":")
                 want = desc[int(rid)]
                 wattrs = ["x::a%d" % a for a in qd["own"]] + ([] if ra == "-" else ["x::a%s" % a for a in ra.split(".")])
-                if qd["own"] and ra != "-":
-                    # the alias's own type carries its own attributes first, then what the chain adds (the model's list starts with them)
-                    wattrs = ["x::a%s" % a for a in ra.split(".")]
-                    if [("x::a%d" % a) for a in qd["own"]] != wattrs[:len(qd["own"])]:
-                        wattrs = ["x::a%d" % a for a in qd["own"]] + wattrs
-                elif qd["own"]:
-                    wattrs = ["x::a%d" % a for a in qd["own"]]
                 ok = (obs[:1] == want[:1] and (want[0] != "named" or obs == want) and (want[0] != "prim" or obs == want))
                 if not ok:
                     ck.violation("bindings", "wrong-binding", "\n--\n".join(ts), "%s -> %r" % (qd["q"], want), repr(obs), detail=line)
-                elif oattrs != wattrs and not qd["own"]:
+                elif oattrs != wattrs:
                     ck.violation("bindings", "wrong-attributes", "\n--\n".join(ts), "%s -> attrs %r" % (qd["q"], wattrs), repr(oattrs), detail=line)
             else:
                 code = {"missing": "E033", "mismatch": "E017"}.get(r, "?")
